@@ -1,7 +1,7 @@
 (* Proofs/C10NavTop.v — C10: the navigation operations as steps of the machine: get_parent, and the
    resumption of iter_children / iter_siblings / iter_DIEs generators. *)
 From PV Require Import Spec.C10Spec Proofs.C10Base Proofs.C10Tree Proofs.C10Nodes Proofs.C10Elf Proofs.C10Units
-  Proofs.C10Lines Proofs.C10Main Proofs.C10Top Proofs.C10Nav Proofs.C10Nav2 Proofs.C10Nav3.
+  Proofs.C10Lines Proofs.C10Main Proofs.C10Top Proofs.C10TUs Proofs.C10Nav Proofs.C10Nav2 Proofs.C10Nav3.
 From Coq Require Import ZArith List Bool Lia ZifyBool.
 Import ListNotations.
 Open Scope Z_scope.
@@ -40,7 +40,7 @@ Section NavTop.
   Lemma next_children s cf u acf : Inv F s -> frame_rel F s (FChildren cf) (AFChildren u acf) ->
     next_ok s (FChildren cf) (AFChildren u acf).
   Proof.
-    intros HI Hf. inversion Hf as [| |u0 cf0 acf0 Hrel| | | | | |]. subst u0 cf0 acf0.
+    intros HI Hf. inversion Hf as [| | |u0 cf0 acf0 Hrel| | | | | |]. subst u0 cf0 acf0.
     unfold C10Top.next_ok. cbn [frame_next aframe_next].
     assert (Hunit : (exists ud, unit_at F u = Some ud) \/ (cf = CDone /\ acf = ACDone)).
     { inversion Hrel; subst; [left|left|right; auto]; eapply die_at_has_unit; eauto. }
@@ -109,7 +109,7 @@ Section NavTop.
     next_ok s (FSiblings self c) (AFSiblings u so ac).
   Proof.
     intros HI Hf. unfold C10Top.next_ok. cbn [frame_next].
-    inversion Hf as [| | |u0 self0 o0 Hself|u0 self0 o0 cf acf Hself Hrel| | | |]; subst.
+    inversion Hf as [| | | |u0 self0 o0 Hself|u0 self0 o0 cf acf Hself Hrel| | | |]; subst.
     - (* not started: parent = self.get_parent() *)
       destruct (die_at_has_unit s self u so HI Hself) as (ud & Hu).
       destruct (die_facts F WF fuel Hfu _ _ _ _ HI Hself) as (d & c & e & _ & _ & _ & _ & He & _).
@@ -144,7 +144,7 @@ Section NavTop.
     next_ok s (FSubtree st) (AFSubtree u ast).
   Proof.
     intros HI Hf. unfold C10Top.next_ok. cbn [frame_next aframe_next].
-    inversion Hf as [| | | | |u0 st0 ast0 Hall Hsn| | |]; subst.
+    inversion Hf as [| | | | | |u0 st0 ast0 Hall Hsn| | |]; subst.
     destruct (unit_at F u) as [ud|] eqn:Hu.
     - pose proof (stack_fuel F WF fuel Hfu Hnav u ud st ast s Hu Hall Hsn) as Hw.
       destruct (subtree_next_ok F WF fuel Hfu Hnav u ud Hu fuel s st ast Hw HI Hall Hsn) as (s1 & r & E1 & HI1 & X1 & Hp).
@@ -172,6 +172,7 @@ Section NavTop.
     destruct Hrel.
     - apply (next_empty F WF fuel Hfuel); auto.
     - apply (next_cus F WF fuel Hfuel); auto. constructor; auto.
+    - apply (next_tus F WF fuel Hfuel); auto. constructor; auto.
     - apply next_children; auto. constructor; auto.
     - apply next_siblings; auto. constructor; auto.
     - apply next_siblings; auto. constructor; auto.
